@@ -1239,7 +1239,30 @@ print(json.dumps({"alive": [t.is_alive() for t in ts], "errors": errs}))
 """
 
 
-def thread_smoke(n_workers=4, n_subjects=12):
+# the same program, but EVERY worker submits EVERY name (all workers leave a barrier together for each name), on a "slow disk": file
+# objects opened by the aggregator module take a few milliseconds to close (the data written through them reaches the file at close).
+# A claim that is not in the file by the time the lock is free lets a second worker claim the same name.
+THREAD_COLLIDE = THREAD_SMOKE.replace(
+    "errs = []\n",
+    "errs = []\n"
+    "import builtins, time\n"
+    "import panoptica.panoptica_aggregator as PA\n"
+    "class SlowFile:\n"
+    "    def __init__(self, f): self.__dict__['f'] = f\n"
+    "    def __getattr__(self, n): return getattr(self.f, n)\n"
+    "    def __iter__(self): return iter(self.f)\n"
+    "    def __enter__(self): self.f.__enter__(); return self\n"
+    "    def __exit__(self, *a): time.sleep(0.003); return self.f.__exit__(*a)\n"
+    "    def close(self): time.sleep(0.003); return self.f.close()\n"
+    "def slow_open(*a, **k): return SlowFile(builtins.open(*a, **k))\n"
+    "PA.open = slow_open\n"
+    "barrier = threading.Barrier(n_workers)\n", 1).replace(
+    "        for i in range(w, n_subjects, n_workers):\n            try:\n",
+    "        for i in range(n_subjects):\n            try:\n                barrier.wait(30)\n", 1)
+assert THREAD_COLLIDE != THREAD_SMOKE and "barrier.wait" in THREAD_COLLIDE and "PA.open = slow_open" in THREAD_COLLIDE
+
+
+def thread_smoke(n_workers=4, n_subjects=12, collide=False):
     """free-running threads (no scheduler) sharing ONE aggregator and its evaluator; -> (lines, sequential lines, report)"""
     import json
     import shutil
@@ -1248,7 +1271,7 @@ def thread_smoke(n_workers=4, n_subjects=12):
     import tempfile
     d = tempfile.mkdtemp(dir=str(common.WORK))
     script = Path(d) / "threads.py"
-    script.write_text(THREAD_SMOKE)
+    script.write_text(THREAD_COLLIDE if collide else THREAD_SMOKE)
     out = str(Path(d) / "threads.tsv")
     try:
         p = subprocess.run([sys.executable, str(script), str(common.REPO), out, str(n_workers), str(n_subjects)], capture_output=True, text=True,
